@@ -9,7 +9,13 @@
            lens_out = lengths of the lines unframe emitted per chunk; n_items = number of objects delivered.
            raw = None: the file object is the builtin buffered one (full chunks, then the rest);
            raw = Some caps: the custom open_obj returned a raw stream whose k-th read call had at most
-           caps[k] bytes at hand (recorded by the stream itself, one entry per read call file.read made). *)
+           caps[k] bytes at hand (recorded by the stream itself, one entry per read call file.read made).
+   CDoc:   lines=False on a file holding one document.  fsize / read_sizes as above (file.read(size=-1): the
+           whole file in one chunk); chunks = the text items that entered load (tap), each NON-EMPTY text
+           replaced by a one-character key (the k-th distinct text -> [k]; '' -> []: load only looks at
+           len(i) > 0 and at json.loads(i)); tbl = what orjson.loads answered on each key; items as in CSmall.
+           raw = Some caps: the reader is a raw stream, read(-1) = readall() = read(buf) until an empty read
+           (buf = io.DEFAULT_BUFFER_SIZE), then file.read asks once more: one more (empty) read call. *)
 From Coq Require Import List ZArith NArith Bool Arith.
 From RxVerif Require Import Base.Corr Framing.Line Container.Parquet Container.JsonLines.
 Import ListNotations.
@@ -20,7 +26,9 @@ Inductive c19case :=
          (lines_out : list (list (list Z))) (tbl : list (list Z * option N)) (skip : nat) (ignore : bool)
          (items : list N) (completed : bool)
 | CBig (fsize rsize : N) (raw : option (list N)) (read_sizes : list N) (segs lens_out : list (list N))
-       (skip : nat) (n_items : N) (completed : bool).
+       (skip : nat) (n_items : N) (completed : bool)
+| CDoc (fsize buf : N) (raw : option (list N)) (read_sizes : list N) (chunks : list (list Z))
+       (tbl : list (list Z * option N)) (skip : nat) (ignore : bool) (items : list N) (completed : bool).
 
 Definition ns_eqb := list_eqb N.eqb.
 Definition count_nonzero (l : list N) : N := N.of_nat (length (filter (fun x => negb (x =? 0)%N) l)).
@@ -57,4 +65,17 @@ Definition c19_check (c : c19case) : bool :=
       && list_eqb ns_eqb lens lens_out
       && (count_nonzero (skipn skip (concat lens)) =? n_items)%N
       && completed
+  | CDoc fsize buf raw read_sizes chunks tbl skip ignore items completed =>
+      let r := z_json_load tbl skip ignore chunks in
+      ns_eqb (doc_read_sizes fsize) read_sizes
+      && match raw with
+         | None => true
+         | Some caps =>
+             (* readall: short reads of at most buf bytes until the empty one; they add up to the file; a
+                non-empty file costs one more call (the second read(-1) of the loop of file.read) *)
+             let s := raw_sizes buf caps fsize in
+             (fold_right N.add 0%N s =? fsize)%N
+             && (N.of_nat (length caps) =? N.of_nat (length s) + (if (fsize =? 0)%N then 1 else 2))%N
+         end
+      && ns_eqb (fst r) items && Bool.eqb (snd r) completed
   end.
